@@ -68,6 +68,20 @@ pub struct Shared {
     pub max_inflight: i64,
     /// (virtual ms, from, to) of every segment the peer released
     pub send_log: Vec<(u64, usize, usize)>,
+    // ---- closed-loop adversarial write side (see `WSched`)
+    pub need_credit: Rc<Notify>,
+    pub need_flush: Rc<Notify>,
+    /// per-write-call cap on accepted bytes, cyclic; empty = no cap
+    pub max_write_pat: Vec<usize>,
+    pub mw_i: usize,
+    /// (flush calls let through, then block for ms), cyclic; empty = never block
+    pub flush_pat: Vec<(u8, u16)>,
+    pub flush_i: usize,
+    pub flush_skip_left: u8,
+    pub flush_block_ms: u16,
+    pub flush_blocks_left: u32,
+    /// total virtual ms the socket spent refusing writes / flushes (for timeliness bounds)
+    pub blocked_ms_budget: u64,
 }
 
 impl Shared {
@@ -118,6 +132,16 @@ pub fn pair() -> (SimIo, Peer) {
         delivered: 0,
         max_inflight: 0,
         send_log: Vec::new(),
+        need_credit: Rc::new(Notify::new()),
+        need_flush: Rc::new(Notify::new()),
+        max_write_pat: Vec::new(),
+        mw_i: 0,
+        flush_pat: Vec::new(),
+        flush_i: 0,
+        flush_skip_left: 0,
+        flush_block_ms: 0,
+        flush_blocks_left: 0,
+        blocked_ms_budget: 0,
     }));
     (SimIo(sh.clone()), Peer(sh))
 }
@@ -201,10 +225,16 @@ impl AsyncWrite for SimIo {
             s.write_after_shutdown += data.len();
         }
         let mut n = data.len().min(s.max_write);
+        if !s.max_write_pat.is_empty() {
+            let i = s.mw_i % s.max_write_pat.len();
+            s.mw_i += 1;
+            n = n.min(s.max_write_pat[i].max(1));
+        }
         if let Some(c) = s.credit {
             if c == 0 {
                 s.write_pending += 1;
                 s.write_waker = Some(cx.waker().clone());
+                s.need_credit.notify_one();
                 return Poll::Pending;
             }
             n = n.min(c);
@@ -229,6 +259,20 @@ impl AsyncWrite for SimIo {
                 io::ErrorKind::BrokenPipe,
                 "sim: peer gone",
             )));
+        }
+        if !s.flush_blocked && !s.flush_pat.is_empty() && s.flush_blocks_left > 0 {
+            if s.flush_skip_left == 0 {
+                let len = s.flush_pat.len();
+                let i = s.flush_i % len;
+                s.flush_i += 1;
+                s.flush_block_ms = s.flush_pat[i].1;
+                s.flush_skip_left = s.flush_pat[(i + 1) % len].0;
+                s.flush_blocks_left -= 1;
+                s.flush_blocked = true;
+                s.need_flush.notify_one();
+            } else {
+                s.flush_skip_left -= 1;
+            }
         }
         if s.flush_blocked {
             s.flush_pending += 1;
@@ -477,5 +521,81 @@ pub async fn run_wscript(peer: Peer, ops: Vec<WOp>) {
             }
             WOp::Break => peer.break_write(),
         }
+    }
+}
+
+/// Closed-loop adversarial write side: the socket starts with `init_credit` bytes of credit; each
+/// time a write finds the credit exhausted the next `(delay_ms, credit)` of the cyclic `drip`
+/// pattern is applied (delay 0 = one scheduler yield). `max_write` caps single writes cyclically,
+/// `flush` blocks `poll_flush` cyclically (let `skip` calls through, then block for `ms`).
+/// After `budget` refills / flush blocks the socket becomes benign, so work is always possible
+/// eventually.
+#[derive(Debug, Clone, serde::Serialize, serde::Deserialize, PartialEq, Eq, Hash, Default)]
+pub struct WSched {
+    pub init_credit: u32,
+    pub drip: Vec<(u16, u32)>,
+    pub max_write: Vec<u32>,
+    pub flush: Vec<(u8, u16)>,
+    pub budget: u32,
+}
+
+impl WSched {
+    pub fn is_benign(&self) -> bool {
+        self.drip.is_empty() && self.max_write.is_empty() && self.flush.is_empty()
+    }
+}
+
+pub fn apply_wsched(peer: &Peer, w: &WSched) {
+    let mut s = peer.0.borrow_mut();
+    if !w.drip.is_empty() {
+        s.credit = Some(w.init_credit as usize);
+    }
+    s.max_write_pat = w.max_write.iter().map(|m| *m as usize).collect();
+    s.flush_pat = w.flush.clone();
+    s.flush_skip_left = w.flush.first().map(|f| f.0).unwrap_or(0);
+    s.flush_blocks_left = if w.flush.is_empty() { 0 } else { w.budget.max(1) };
+}
+
+pub async fn run_drip(peer: Peer, w: WSched) {
+    if w.drip.is_empty() {
+        return;
+    }
+    let notify = peer.0.borrow().need_credit.clone();
+    let mut i = 0usize;
+    let mut left = w.budget.max(1);
+    loop {
+        notify.notified().await;
+        if peer.0.borrow().credit.map_or(true, |c| c > 0) {
+            continue;
+        }
+        let (d, c) = w.drip[i % w.drip.len()];
+        i += 1;
+        if d == 0 {
+            tokio::task::yield_now().await;
+        } else {
+            peer.0.borrow_mut().blocked_ms_budget += d as u64;
+            tokio::time::sleep(Duration::from_millis(d as u64)).await;
+        }
+        left -= 1;
+        if left == 0 {
+            peer.set_credit(None);
+            return;
+        }
+        peer.add_credit(c.max(1) as usize);
+    }
+}
+
+pub async fn run_flush_unblocker(peer: Peer) {
+    let notify = peer.0.borrow().need_flush.clone();
+    loop {
+        notify.notified().await;
+        let ms = peer.0.borrow().flush_block_ms;
+        if ms == 0 {
+            tokio::task::yield_now().await;
+        } else {
+            peer.0.borrow_mut().blocked_ms_budget += ms as u64;
+            tokio::time::sleep(Duration::from_millis(ms as u64)).await;
+        }
+        peer.block_flush(false);
     }
 }
